@@ -131,6 +131,31 @@ Section Proj.
     - right. apply IH; assumption.
   Qed.
 
+  (* nodes found already tainted on read-back *)
+  Lemma found_tainted_app a b : found_tainted x (a ++ b) = found_tainted x a ++ found_tainted x b.
+  Proof. unfold found_tainted, ok_got_names. rewrite map_app, concat_app, filter_app. reflexivity. Qed.
+
+  Definition already (p : node * toutcome) : bool := match taint_outcome api o (n_name (fst p)) with TAlready => true | _ => false end.
+
+  Lemma one_taint_found n :
+    zlen (found_tainted x (liftK (fst (add_taint api o (now_sec (x_env x)) (o_effect (x_opts x)) (n_name n))))) <=
+    match taint_outcome api o (n_name n) with TAlready => 1 | _ => 0 end.
+  Proof.
+    unfold add_taint, taint_outcome. destruct (api_get api o (n_name n)) as [u|] eqn:Eu; [|unfold zlen; simpl; lia].
+    destruct (has_esc u) eqn:Eh.
+    - unfold found_tainted, ok_got_names, liftK. simpl. destruct (_ && _); unfold zlen; simpl; lia.
+    - assert (Hf : api_has_esc x (n_name n) = false).
+      { unfold api_has_esc, api_copy. fold api. rewrite (api_get_lookup _ _ Eu). exact Eh. }
+      destruct (mem_id (n_name n) (ko_update_fail o)); unfold found_tainted, ok_got_names, liftK; simpl; rewrite Hf, andb_false_r; unfold zlen; simpl; lia.
+  Qed.
+
+  Lemma run_found run : zlen (found_tainted x (liftK (concat (map tc run)))) <= zlen (filter already run).
+  Proof.
+    induction run as [|[n oc] run IH]; [unfold zlen; simpl; lia|]. simpl. rewrite liftK_app, found_tainted_app, zlen_app. subst tc. simpl.
+    pose proof (one_taint_found n) as H1. unfold already at 1. simpl fst.
+    destruct (taint_outcome api o (n_name n)); rewrite ?zlen_cons; lia.
+  Qed.
+
   (* kinds of updates *)
   Lemma add_taint_kinds name c : In c (liftK (fst (add_taint api o (now_sec (x_env x)) (o_effect (x_opts x)) name))) ->
     is_untaint_write x c = false /\ is_cloud_increase c = false.
@@ -269,6 +294,19 @@ Proof.
   - specialize (IH n count). lia.
 Qed.
 
+Lemma wrote_already_le_counts api o l : forall n count,
+  zlen (filter (fun q : node * toutcome => match taint_outcome api o (n_name (fst q)) with TWrote => true | _ => false end) (tl_run api o l n count))
+  + zlen (filter (fun q : node * toutcome => match taint_outcome api o (n_name (fst q)) with TAlready => true | _ => false end) (tl_run api o l n count))
+  <= zlen (filter (fun p : node * toutcome => oc_counts (snd p)) (tl_run api o l n count)).
+Proof.
+  induction l as [|y l IH]; intros n count; cbn [tl_run filter]; [unfold zlen; simpl; lia|].
+  destruct (n <=? count); [unfold zlen; simpl; lia|]. cbn [filter fst snd].
+  destruct (taint_outcome api o (n_name y)); cbn [oc_counts]; rewrite ?zlen_cons.
+  - specialize (IH n (count + 1)). lia.
+  - specialize (IH n (count + 1)). lia.
+  - specialize (IH n count). lia.
+Qed.
+
 (* ---------- scale_down_taint ---------- *)
 Section Down.
   Variable x : gctx.
@@ -333,6 +371,27 @@ Section Down.
       { destruct (map n_name (filter wrote (firstn k (sort_oldest unt)))); [congruence | rewrite zlen_cons; pose proof (zlen_nonneg l); lia]. }
       subst n. unfold clamp_n in *. destruct (zlen unt - want <? mn) eqn:E; [lia|]. apply Z.ltb_ge in E. lia.
   Qed.
+  (* written plus found-already-tainted stay within the clamp: at least mn of the listed untainted nodes are neither *)
+  Lemma down_found mn st unt want :
+    let calls := fst (fst (scale_down_taint (x_env x) (x_opts x) mn (x_dry x) st unt want)) in
+    taint_ok_targets x calls <> [] -> mn <= zlen unt - zlen (taint_ok_targets x calls) - zlen (found_tainted x calls).
+  Proof.
+    intros calls. subst calls. destruct (x_dry x) eqn:Hdry.
+    { rewrite <- Hdry, scale_down_taint_dry by exact Hdry. unfold taint_ok_targets; simpl. congruence. }
+    rewrite <- Hdry. destruct (scale_down_taint_wet mn st unt want Hdry) as [[Hn ->]|[Hn ->]].
+    { unfold taint_ok_targets; simpl. congruence. }
+    set (n := clamp_n mn unt want) in *. set (run := tl_run api o (sort_oldest unt) n 0).
+    pose proof (run_found x run) as Hf. unfold tc. rewrite (run_targets x run).
+    pose proof (tl_run_successes api o (sort_oldest unt) n 0) as Hs. fold run in Hs.
+    pose proof (wrote_already_le_counts api o (sort_oldest unt) n 0) as Hle. fold run in Hle.
+    unfold already in Hf.
+    set (W := filter (fun p : node * toutcome => match taint_outcome api o (n_name (fst p)) with TWrote => true | _ => false end) run) in *.
+    replace (zlen (map (fun p : node * toutcome => n_name (fst p)) W)) with (zlen W) by (unfold zlen; rewrite map_length; reflexivity).
+    intros Hne.
+    assert (Hpos : 0 < zlen W).
+    { destruct W; [simpl in Hne; congruence | rewrite zlen_cons; pose proof (zlen_nonneg W); lia]. }
+    subst n. unfold clamp_n in *. destruct (zlen unt - want <? mn) eqn:E; [lia|]. apply Z.ltb_ge in E. lia.
+  Qed.
 End Down.
 
 (* ---------- the three branches of scan_act ---------- *)
@@ -340,13 +399,26 @@ Definition final_delta (e : env) (o : opts) (mn mx : Z) (us : usage) (cap : capa
   let d1 := if scale_on_starve o mx us cap unt then Z.max d0 1 else d0 in
   if scale_on_max_age e o mn unt tainted then Z.max d1 1 else d1.
 
-Definition quiet_prefix (pre : list call) : Prop := no_update pre /\ no_increase pre.
+Definition no_get (calls : list call) : Prop := forall c, In c calls -> match c with CK (KGet _ _) => False | _ => True end.
+Lemma no_get_app a b : no_get a -> no_get b -> no_get (a ++ b).
+Proof. intros Ha Hb c Hc. apply in_app_or in Hc. destruct Hc as [H|H]; [apply Ha | apply Hb]; exact H. Qed.
+Lemma no_get_found x calls : no_get calls -> found_tainted x calls = [].
+Proof.
+  intros H. unfold found_tainted, ok_got_names. induction calls as [|c l IH]; [reflexivity|]. simpl. rewrite filter_app.
+  rewrite IH by (intros c' Hc'; apply H; right; exact Hc'). rewrite app_nil_r.
+  pose proof (H c (or_introl eq_refl)) as Hg. destruct c as [[]|]; simpl in *; try reflexivity; contradiction.
+Qed.
+
+Definition quiet_prefix (pre : list call) : Prop := no_update pre /\ no_increase pre /\ no_get pre.
 
 Lemma quiet_prefix_app a b : quiet_prefix a -> quiet_prefix b -> quiet_prefix (a ++ b).
-Proof. intros [A1 A2] [B1 B2]. split; [apply no_update_app | apply no_increase_app]; assumption. Qed.
+Proof. intros [A1 [A2 A3]] [B1 [B2 B3]]. split; [apply no_update_app | split; [apply no_increase_app | apply no_get_app]]; assumption. Qed.
 
 Lemma removal_quiet a cands calls : (forall c, In c calls -> removal_of a cands c) -> quiet_prefix calls.
-Proof. intros H. split; [eapply removal_no_update | eapply removal_no_increase]; exact H. Qed.
+Proof.
+  intros H. split; [eapply removal_no_update | split; [eapply removal_no_increase|]]; try exact H.
+  intros c Hc. destruct (H c Hc); exact I.
+Qed.
 
 (* a not-in-group error of TryDeleteNodes names a candidate that is no instance of the cloud group *)
 Lemma try_delete_notingroup e a cands calls a' :
@@ -395,7 +467,10 @@ Proof.
 Qed.
 
 Lemma lag_quiet e st nodes : quiet_prefix (liftA (registration_lag_calls e st nodes)).
-Proof. split; [apply liftA_no_update | apply lag_no_increase]. Qed.
+Proof.
+  split; [apply liftA_no_update | split; [apply lag_no_increase|]].
+  intros c Hc. unfold liftA in Hc. apply in_map_iff in Hc. destruct Hc as [k [<- _]]. exact I.
+Qed.
 
 (* ---------- C03 ---------- *)
 Lemma c03_no_taint x calls : no_taint_write x calls -> check_C03_group x calls = true.
@@ -409,11 +484,11 @@ Proof.
   unfold in_class. rewrite existsb_exists. split; intros [n [H1 H2]]; exists n; split; auto; [apply Z.eqb_eq; exact H2 | apply Z.eqb_eq; exact H2].
 Qed.
 
-Lemma c03_down x pre st want : x_cls x = filter_nodes (x_dry x) (x_st x) (x_nodes x) -> NoDup (map n_name (x_nodes x)) -> no_update pre ->
+Lemma c03_down x pre st want : x_cls x = filter_nodes (x_dry x) (x_st x) (x_nodes x) -> NoDup (map n_name (x_nodes x)) -> no_update pre -> no_get pre ->
   x_min x <= zlen (c_untainted (x_cls x)) ->
   check_C03_group x (pre ++ fst (fst (scale_down_taint (x_env x) (x_opts x) (x_min x) (x_dry x) st (c_untainted (x_cls x)) want))) = true.
 Proof.
-  intros Hcls Hnd Hpre Hmin. unfold check_C03_group.
+  intros Hcls Hnd Hpre Hget Hmin. unfold check_C03_group.
   rewrite taint_ok_targets_app. destruct (no_update_no_taint x pre Hpre) as [_ [_ ->]]. simpl app.
   destruct (down_targets x (x_min x) st (c_untainted (x_cls x)) want) as [H1 [H2 [H3 H4]]].
   set (T := taint_ok_targets x _) in *.
@@ -425,7 +500,10 @@ Proof.
   simpl.
   replace (zlen (c_untainted (x_cls x)) <? x_min x) with false by (symmetry; apply Z.ltb_ge; exact Hmin).
   rewrite !andb_false_r. rewrite andb_true_r.
-  destruct T as [|t0 T'] eqn:ET; [reflexivity|]. apply Z.leb_le. apply H4. discriminate.
+  destruct T as [|t0 T'] eqn:ET; [reflexivity|]. apply Z.leb_le.
+  rewrite found_tainted_app, (no_get_found x pre Hget). simpl app.
+  pose proof (down_found x (x_min x) st (c_untainted (x_cls x)) want) as H5. cbv zeta in H5. fold T in H5. rewrite ET in H5.
+  apply H5. discriminate.
 Qed.
 
 (* the frame shared by the scan-level theorems of this file: scan_group either makes no call, or runs scale_up from
@@ -490,7 +568,7 @@ Proof.
         pose proof (scan_act_branches e o mn mx dry st2 a pods unt tainted forced lag tg us cap d0 fz (lag_quiet _ _ _)) as Hbr end.
       cbv zeta in Hbr. destruct Hbr as [[_ [pre [[Hp1 Hp2] [[-> _] | ->]]]] | [[_ [pre [a1 [[Hp1 Hp2] ->]]]] | [_ [Hq1 Hq2]]]].
       * apply c03_no_taint. apply no_update_no_taint. exact Hp1.
-      * apply c03_down; [reflexivity | exact Hnd | exact Hp1 | exact Hmin].
+      * apply c03_down; [reflexivity | exact Hnd | exact Hp1 | exact (proj2 Hp2) | exact Hmin].
       * apply c03_no_taint. apply no_taint_write_app; [apply no_update_no_taint; exact Hp1 | apply (scale_up_no_taint_write x)].
       * apply c03_no_taint. apply no_update_no_taint. exact Hq1.
 Qed.
@@ -592,7 +670,7 @@ Lemma c06_quiet_parts x calls : quiet_prefix calls ->
   existsb (is_untaint_write x) calls = false /\ existsb is_cloud_increase calls = false /\
   existsb (is_taint_write x) calls = false /\ taint_ok_targets x calls = [].
 Proof.
-  intros [H1 H2]. destruct (no_update_no_taint x calls H1) as [A [B C]].
+  intros [H1 [H2 _]]. destruct (no_update_no_taint x calls H1) as [A [B C]].
   splits; [apply no_untaint_write_existsb | apply no_increase_existsb | apply no_taint_write_existsb |]; assumption.
 Qed.
 
